@@ -11,4 +11,14 @@ META = {
         text="Exploration: registration plans (pattern sets spread over root mux, Mount, Route, NewMux(path), handlers added before/after mounting or through a mounted prefix, group templates, listeners) are executed on real muxes and on a brute-force reference router; every lookup is compared for winner, params, group and listener set; registration outcomes (accepted / rejected) are compared with the documented rules. Exhaustive for all sets of <=2 patterns of <=3 tokens over a 6-token alphabet x 7 arrangements x all names of <=4 tokens; random beyond (<=12 patterns, <=6 tokens, nested mounts); arbitrary strings only for no-panic/soundness.",
         note="Trusted: harness/internal/refmux (brute-force matcher and specificity order written from the Handle doc comment and the property text). Results for syntactically invalid resource names are treated as unspecified apart from no-panic and soundness.",
     ),
+    "C04": dict(
+        technique="rapid property-based testing with generated handler-behaviour scripts (sequential and concurrent batches) and a response-count oracle",
+        text="Exploration: generated services (1-3 patterns with any subset of access/get/call/new/auth handlers) receive generated requests (type x name x method x payload incl. malformed x HTTP flag) whose handlers interpret a generated behaviour script (reply variants, double reply, no reply, panics of six kinds before/after replying, nested Value, meta calls, events, unmarshalable values). Per request the number of non-pre-response messages on its private reply subject must be exactly 1 (0 only for access on a pattern without access handler, decided by the reference router), and the service must still answer a probe afterwards. Sequential cases inspect after the request.done hook; concurrent batches of up to 200 requests over 1-32 workers wait for all done hooks.",
+        note="Trusted: harness/internal/refmux routing reference (to decide the access exception), the request.done/listener.msgDone hooks for quiescence. Unspecified: subjects without resource or method part (only no-crash).",
+    ),
+    "C05": dict(
+        technique="rapid property-based testing; differential against a reference dispatch model and a reference interpreter of handler scripts",
+        text="Exploration: the cases of C04 run with recording handlers (unique marker per handler function; every visible request field copied). A reference dispatch model (subject split at first dot / last dot, brute-force routing, named method else *, new preferring the New handler) predicts which single handler runs and what it must see (type, method, resource name, path params, group, query, cid, raw params/token byte-equal, header, host, remoteAddr, uri, isHttp); a reference interpreter of the behaviour script predicts the response class and, for error outcomes, the code (verbatim code/message/data for *res.Error passed to Error or panicked; system.internalError for other panics and missing replies; notFound/methodNotFound/internalError when nothing can be invoked).",
+        note="Trusted: harness/internal/refmux, harness/internal/script.Predict (written from the request API doc comments), reqcase.Route. Result payload equality is C18's business; response shape C07's; response count C04's.",
+    ),
 }
